@@ -525,6 +525,9 @@ class HTMLBinaryInputStream(HTMLUnicodeInputStream):
         if newEncoding.name in ("utf-16be", "utf-16le"):
             newEncoding = lookupEncoding("utf-8")
             assert newEncoding is not None
+        elif newEncoding.name == "x-user-defined":
+            newEncoding = lookupEncoding("windows-1252")
+            assert newEncoding is not None
         if newEncoding == self.charEncoding[0]:
             self.charEncoding = (self.charEncoding[0], "certain")
         else:
